@@ -6,6 +6,7 @@
   (`normal_is_reciprocal`, wrap, fault, shifts) are for linearly ordered fields.
 -/
 import Proofs.C14_Search
+import Proofs.C14_Object
 import Proofs.C04
 import Mathlib.Data.List.Pairwise
 import Mathlib.Data.List.Perm.Basic
@@ -1616,6 +1617,49 @@ theorem shift_between_planes_atoms (d : ℕ) (xs : List ℚ) (W tol lo : ℚ) (h
   exact shift_between_planes (layerCoords d xs) W tol _ _ h1 hf hl (by linarith) hW0 htol
 
 
+
+/-! ## object level: the clauses after any history of calls (see `Proofs/C14_Object.lean`) -/
+section objectClauses
+variable {K : Type} [Field K] [LinearOrder K] [IsStrictOrderedRing K]
+
+/-- **fault_history_clauses**: on one `StackingFault` object, after ANY sequence of calls (`surface()` with other
+    shifts / multipliers / vacuum / fault planes, refused calls, the `faultpos_*` setters, `set_shift`, earlier
+    `fault()` / `iterfaultmap()` calls), a `fault()` call that returns has moved the atoms of the *stored* system
+    relative to the plane *in force*: every atom at or below it is only re-wrapped (not moved at all when it is
+    inside the periodic directions), every atom above it ends at `p + shift` minus an integer combination of the
+    cell vectors that vanishes along every non-periodic direction. -/
+theorem fault_history_clauses (st : SFStatic K) (hfl : C05.IsFloor st.fl) (o0 : SFState K) (h0 : Coherent st o0)
+    (ops : List (SFOp K)) (a : FaultArgs K) (o' : SFState K) (ps : List (V3 K))
+    (hr : faultOp st (sfRun st o0 ops).1 a = (o', .ok ps)) :
+    ∃ s fp sh, o'.system = some s ∧ o'.fpCart = some fp ∧ resolveFShift st.cut o' a.fshift = .ok sh ∧
+      ps = s.atoms.map (fun x => faultPos s.box s.pbc st.fl st.cut fp sh x.pos) ∧
+      (M3.det s.box.vects ≠ 0 → ∀ x ∈ s.atoms,
+        (x.pos.get (cutIndex st.cut) ≤ fp →
+          faultPos s.box s.pbc st.fl st.cut fp sh x.pos = wrapPos s.box s.pbc st.fl x.pos ∧
+          (insidePeriodic s.box s.pbc x.pos → faultPos s.box s.pbc st.fl st.cut fp sh x.pos = x.pos)) ∧
+        (fp < x.pos.get (cutIndex st.cut) →
+          ∃ n : IV, faultPos s.box s.pbc st.fl st.cut fp sh x.pos + C05.latticeVec s.box.vects n = x.pos + sh ∧
+            (s.pbc.x = false → n.x = 0) ∧ (s.pbc.y = false → n.y = 0) ∧ (s.pbc.z = false → n.z = 0))) := by
+  obtain ⟨s, fp, sh, e1, e2, e3, e4⟩ := fault_after_history st o0 h0 ops a o' ps hr
+  refine ⟨s, fp, sh, e1, e2, e3, ?_, ?_⟩
+  · rw [e4]; unfold fault; rw [List.map_map]; rfl
+  · intro hdet x _
+    refine ⟨fun hb => ?_, fun ha => fault_above_shifted s.box hdet s.pbc st.fl st.cut fp sh x.pos ha⟩
+    obtain ⟨b1, _, b3⟩ := fault_below_fixed s.box hdet s.pbc st.fl hfl st.cut fp sh x.pos hb
+    exact ⟨b1, b3⟩
+
+/-- **vacuum_same_crystal**: the system built with a vacuum width holds the same atoms at the same Cartesian
+    positions as the one built without, with the same pbc and the same in-plane cell vectors: the crystal (the
+    positions modulo the periodic in-plane vectors) is the same; only the extent across the non-periodic cut grows. -/
+theorem vacuum_same_crystal (st : SFStatic K) (shift : V3 K) (s0 s1 s2 : C04.Size) (v : K) :
+    (buildSurface st shift s0 s1 s2 (some v)).atoms = (buildSurface st shift s0 s1 s2 none).atoms ∧
+    (buildSurface st shift s0 s1 s2 (some v)).pbc = (buildSurface st shift s0 s1 s2 none).pbc ∧
+    (∀ i, i < 3 → i ≠ cutIndex st.cut → (buildSurface st shift s0 s1 s2 (some v)).box.vects.row i
+      = (buildSurface st shift s0 s1 s2 none).box.vects.row i) :=
+  ⟨rfl, rfl, (vacuum_symmetric st.cut _ v).1⟩
+
+end objectClauses
+
 /-! ## non-vacuity: the hypotheses of the theorems above are satisfiable (concrete runs of the model) -/
 
 /-- the driver's floor is a floor. -/
@@ -1672,5 +1716,21 @@ example : C05.SqrtOK (fun x : ℚ => if x = 4 then 2 else if x = 9 then 3 else 4
   refine ⟨?_, ?_, ?_, ?_, ?_⟩ <;> unfold C05.SqrtAt <;> decide +kernel
 example : cutMult 3 (some 5) true = 6 ∧ cutMult (-3) none true = -4 ∧ cutMult (-2) (some 5) false = -5 := by decide
 example : pushRadicand .c (5 : ℚ) ⟨3, 0, 1⟩ = 4 * 4 := by decide +kernel
+
+/-- a two-layer cubic cell cut along c as a `StackingFault` object; a history with a rebuild at another shift
+    index and a refused setter; `fault()` then uses the plane and mask of the NEW system. -/
+def exObj : SFStatic ℚ :=
+  ⟨.c, ⟨exCubic, ⟨0, 0, 0⟩⟩, [⟨1, ⟨0, 0, 0⟩, []⟩, ⟨2, ⟨1 / 4, 1 / 4, 1 / 4⟩, []⟩],
+   [⟨0, 0, 1 / 8⟩, ⟨0, 0, 3 / 8⟩], exCubic, exId, Rat.floor, 1 / 100000000⟩
+def exArgs (i : Int) (m : Int) (fp : FaultPosArg ℚ) : SurfArgs ℚ := ⟨.idx i, .int 1, .int 1, .int m, none, false, none, fp⟩
+def exHist : List (SFOp ℚ) := [.surface (exArgs 0 2 (.rel (3 / 4))), .fpRel 2, .surface (exArgs 1 2 .none)]
+example : ((sfNew exObj .keep).toOption.map fun o =>
+    let r := faultOp exObj (sfRun exObj o exHist).1 ⟨none, none, .none, .coeffs (some (1 / 2)) none none⟩
+    (r.1.above, r.1.fpCart, r.2.toOption)) = some (some [false, false, true, true], some 1,
+      some [⟨0, 0, 3 / 8⟩, ⟨1 / 4, 1 / 4, 5 / 8⟩, ⟨1 / 2, 0, 11 / 8⟩, ⟨3 / 4, 1 / 4, 13 / 8⟩]) := by decide +kernel
+example : ((sfNew exObj .keep).toOption.map fun o =>
+    (surfaceBase exObj (sfRun exObj o (exHist.take 2)).1 (exArgs 1 2 .none)).2.toBool) = some true := by decide +kernel
+example : ((sfNew exObj .keep).toOption.map fun o => (sfRun exObj o exHist).2.map Except.toBool)
+    = some [true, false, true] := by decide +kernel
 
 end Atomman.C14
